@@ -21,4 +21,19 @@ theorem source_is_valid_oklch (t : α × α × α) : CmGen.Leaves.is_valid_oklch
   cases Num.le (0.0 : α) L <;> cases Num.le L (1.0 : α) <;> cases Num.lt C (0.0 : α) <;>
     cases Num.le (0.0 : α) H <;> cases Num.le H (360.0 : α) <;> rfl
 
+/-- `is_valid_rgb` -/
+theorem source_is_valid_rgb (c : RGB) : CmGen.Leaves.is_valid_rgb c = validRgb c := by
+  simp only [CmGen.Leaves.is_valid_rgb, validRgb, Bool.and_assoc]
+
+/-- `rgb_to_oklch_safe`: validation, conversion, validation, and the grey fallback of its handler (an explicit `raise`
+    continues with the handler; exceptions raised inside the conversion are not modelled) -/
+theorem source_rgb_to_oklch_safe (c : RGB) : CmGen.Leaves.rgb_to_oklch_safe (α := α) c = rgbToOklchSafe c := by
+  obtain ⟨r, g, b⟩ := c
+  simp only [CmGen.Leaves.rgb_to_oklch_safe, rgbToOklchSafe, source_is_valid_rgb, source_rgb_to_oklch, source_is_valid_oklch]
+
+/-- `oklch_to_rgb_safe` -/
+theorem source_oklch_to_rgb_safe (t : α × α × α) : CmGen.Leaves.oklch_to_rgb_safe t = oklchToRgbSafe t := by
+  obtain ⟨L, C, H⟩ := t
+  simp only [CmGen.Leaves.oklch_to_rgb_safe, oklchToRgbSafe, source_is_valid_rgb, source_oklch_to_rgb, source_is_valid_oklch]
+
 end CmProps.C10
